@@ -115,7 +115,7 @@ fn worker(args: &[String]) -> i32 {
     let findings = Findings::load(&format!("{}/known_findings.json", root()));
     let inflight = InFlight::new(&args[4], threads());
     let mut res = run_generated(d.as_ref(), tier, seed, &findings, Some(&inflight));
-    let hz = findings.hazards();
+    let hz = findings.hazards_for(d.id());
     d.extra(tier, &mut res.stats, &hz, &mut res.violations, &findings);
     let v = json!({
         "stats": stats_to_json(&res.stats),
@@ -135,7 +135,7 @@ fn one(args: &[String]) -> i32 {
     let mode = mode_from(&args[1]);
     let tape = std::fs::read(&args[2]).unwrap_or_default();
     let findings = Findings::load(&format!("{}/known_findings.json", root()));
-    let hz = findings.hazards();
+    let hz = findings.hazards_for(d.id());
     // same stack size as the generated-case worker threads
     let (o, rendered) = std::thread::scope(|s| {
         std::thread::Builder::new()
